@@ -892,7 +892,7 @@ Proof.
     assert (Hcost : ins_cost v i = Some (gen_cost ci (params_of i) v)).
     { unfold ins_cost. rewrite Hl. reflexivity. }
     rewrite Hcost. f_equal. destruct (is_curve_op o) eqn:Cu.
-    + destruct (params_of i) as [ | [ | | s | | | | ] ps] eqn:P; try discriminate.
+    + destruct (params_of i) as [ | [ | | s | | | | | ] ps] eqn:P; try discriminate.
       destruct (mem s (curves_at v)) eqn:M; [ | discriminate]. inversion H; subst c.
       apply (Hcurve eq_refl s); [apply mem_In; exact M | reflexivity].
     + inversion H; subst c. apply (Hplain eq_refl).
